@@ -81,3 +81,29 @@ mut("C11", "c11-shared-violation-buffer", "src/immutable/checker.go",
     "\tvar violations []ImmutableViolation\n\n\t// Build indices for efficient lookup during AST traversal",
     "\tviolations := violationBuf[:0]\n\tdefer func() { violationBuf = violations }()\n\n\t// Build indices for efficient lookup during AST traversal")
 mut("C11", "c11-shared-violation-buffer", "src/immutable/checker.go", "func CheckImmutable(", "var violationBuf []ImmutableViolation\n\nfunc CheckImmutable(")
+
+# ---- C06 ---------------------------------------------------------------
+mut("C06", "c06-mutable-fieldname-unexported", AN, "\tFieldName string // \"MutableField\"", "\tfieldName string // \"MutableField\"")
+mut("C06", "c06-mutable-fieldname-unexported", AN, "\t\tFieldName: fieldName,", "\t\tfieldName: fieldName,")
+mut("C06", "c06-mutable-fieldname-unexported", AN, "// MutableAnnotation\n// @immutable", "func (m MutableAnnotation) Field() string { return m.fieldName }\n\n// MutableAnnotation\n// @immutable")
+mut("C06", "c06-mutable-fieldname-unexported", IX, "result.Add(pkg.Path(), annot.FieldName, annot.OnType)", "result.Add(pkg.Path(), annot.Field(), annot.OnType)")
+mut("C06", "c06-packageonly-unexported-cache-preferred", AN, "\tAllowedPackages []string\n}", "\tAllowedPackages []string\n\n\tallowedSet []string // deduplicated, preferred by the index when present\n}")
+mut("C06", "c06-packageonly-unexported-cache-preferred", AN, "\t\tAllowedPackages: allowedPackages,\n\t}", "\t\tAllowedPackages: allowedPackages[:1],\n\t\tallowedSet:      allowedPackages,\n\t}")
+mut("C06", "c06-packageonly-unexported-cache-preferred", AN, "// TypeQuery represents what type we're looking for", "// Allowed returns the allow-list of the annotation.\nfunc (p PackageOnlyAnnotation) Allowed() []string {\n\tif p.allowedSet != nil {\n\t\treturn p.allowedSet\n\t}\n\treturn p.AllowedPackages\n}\n\n// TypeQuery represents what type we're looking for")
+mut("C06", "c06-packageonly-unexported-cache-preferred", IX, "range annot.AllowedPackages {", "range annot.Allowed() {", 0)
+mut("C06", "c06-mutable-index-skips-imports", IX, "\tfor pkg, ann := range iterOverPackages[T](pass, packageAnnotations) {\n\t\tfor _, annot := range ann.MutableAnnotations {", "\tfor pkg, ann := range iterOverPackages[T](pass, packageAnnotations) {\n\t\tif pkg != pass.Pkg {\n\t\t\tcontinue\n\t\t}\n\t\tfor _, annot := range ann.MutableAnnotations {")
+# (pass.Fset.File(annot.OnTypePos) == nil as a "staleness" test is NOT observable: the export-data importer fills the
+#  local FileSet with 64 KiB fake files, so a foreign Pos always lands in some file - in the real vet driver too)
+mut("C06", "c06-imported-annotation-position-resolved-in-local-fileset", IX, "\t\tfor _, annot := range ann.ImmutableAnnotations {\n\t\t\tresult.Add(pkg.Path(), annot.OnType)", "\t\tfor _, annot := range ann.ImmutableAnnotations {\n\t\t\tif name := pass.Fset.Position(annot.OnTypePos).Filename; len(name) > 8 && name[len(name)-8:] == \"_test.go\" {\n\t\t\t\tcontinue // declared in a test file\n\t\t\t}\n\t\t\tresult.Add(pkg.Path(), annot.OnType)")
+mut("C06", "c06-all-package-facts-instead-of-direct-imports", IX,
+    "\t\t\tfor _, imp := range pass.Pkg.Imports() {\n\t\t\t\tfact := zero.CreateEmpty()\n\t\t\t\tif pass.ImportPackageFact(imp, fact) {\n\t\t\t\t\tif !yield(imp, fact.GetAnnotations()) {\n\t\t\t\t\t\treturn\n\t\t\t\t\t}\n\t\t\t\t}\n\t\t\t}",
+    "\t\t\t_ = zero\n\t\t\tfor _, pf := range pass.AllPackageFacts() {\n\t\t\t\tw, ok := pf.Fact.(T)\n\t\t\t\tif !ok || pf.Package == pass.Pkg {\n\t\t\t\t\tcontinue\n\t\t\t\t}\n\t\t\t\tif !yield(pf.Package, w.GetAnnotations()) {\n\t\t\t\t\treturn\n\t\t\t\t}\n\t\t\t}")
+mut("C06", "c06-constructor-fact-exported-after-early-return", AZ,
+    "\t// Export facts before isProjectPackage check so dependencies can use them\n\tfact := annotations.ConstructorCheckerFact(localAnnotations)\n\tpass.ExportPackageFact(&fact)\n",
+    "\tif len(localAnnotations.ImmutableAnnotations) == 0 && len(localAnnotations.TestonlyAnnotations) == 0 {\n\t\treturn nil, nil // nothing annotated here\n\t}\n\tfact := annotations.ConstructorCheckerFact(localAnnotations)\n\tpass.ExportPackageFact(&fact)\n")
+mut("C06", "c06-gob-hostile-interface-field", AN, "\tConstructorNames []string // [\"New\", \"Create\"]\n}", "\tConstructorNames []string // [\"New\", \"Create\"]\n\n\tOrigin interface{} // where the annotation came from\n}")
+mut("C06", "c06-gob-hostile-interface-field", AN, "\t\tConstructorNames: names,\n\t}", "\t\tConstructorNames: names,\n\t\tOrigin:           struct{ Line string }{commentText},\n\t}")
+mut("C06", "c06-testonly-receiver-lost-in-transport", AN, "\t// Receiver type (only for methods, empty otherwise)\n\t// Example: \"MyStruct\" for method receivers\n\tReceiverType string\n}\n\n// MutableAnnotation", "\t// Receiver type (only for methods, empty otherwise)\n\t// Example: \"MyStruct\" for method receivers\n\tReceiverType string `json:\"-\"`\n\trecv         string\n}\n\n// GobEncode keeps the wire format small.\nfunc (t TestOnlyAnnotation) GobEncode() ([]byte, error) {\n\treturn []byte(fmt.Sprintf(\"%d|%s|%d\", t.Kind, t.ObjectName, t.Pos)), nil\n}\n\n// GobDecode is the inverse of GobEncode.\nfunc (t *TestOnlyAnnotation) GobDecode(b []byte) error {\n\tparts := strings.SplitN(string(b), \"|\", 3)\n\tif len(parts) != 3 {\n\t\treturn fmt.Errorf(\"bad testonly annotation\")\n\t}\n\tk, _ := strconv.Atoi(parts[0])\n\tp, _ := strconv.Atoi(parts[2])\n\tt.Kind, t.ObjectName, t.Pos = TestOnlyKind(k), parts[1], token.Pos(p)\n\treturn nil\n}\n\n// MutableAnnotation")
+mut("C06", "c06-testonly-receiver-lost-in-transport", AN, "import (\n\t\"go/ast\"\n\t\"go/token\"\n\t\"regexp\"\n\t\"strings\"\n", "import (\n\t\"fmt\"\n\t\"go/ast\"\n\t\"go/token\"\n\t\"regexp\"\n\t\"strconv\"\n\t\"strings\"\n")
+mut("C06", "c06-constructor-index-only-local-when-root-has-own", IX, "\tfor pkg, ann := range iterOverPackages[T](pass, packageAnnotations) {\n\t\tfor _, annot := range ann.ConstructorAnnotations {", "\tfor pkg, ann := range iterOverPackages[T](pass, packageAnnotations) {\n\t\tif pkg != pass.Pkg && len(packageAnnotations.ConstructorAnnotations) > 0 {\n\t\t\tcontinue // local annotations take precedence\n\t\t}\n\t\tfor _, annot := range ann.ConstructorAnnotations {")
+mut("C06", "c06-packageonly-allowlist-keeps-two-entries-across-packages", IX, "\t\t\tcase annotations.TestOnlyOnFunc:\n\t\t\t\t// Add allowed packages directly to function\n\t\t\t\tfor _, allowedPkg := range annot.AllowedPackages {", "\t\t\tcase annotations.TestOnlyOnFunc:\n\t\t\t\t// Add allowed packages directly to function\n\t\t\t\tfor i, allowedPkg := range annot.AllowedPackages {\n\t\t\t\t\tif pkg != pass.Pkg && i >= 2 {\n\t\t\t\t\t\tbreak\n\t\t\t\t\t}")
